@@ -194,8 +194,18 @@ def run(ctx, rep):
         good = ("market_book.status == 'SUSPENDED'", True) in gs and \
             ("self.order.order_type.persistence_type == 'LAPSE'", True) in gs and \
             gp("market_book.version != self.market_version") in gs
-        nxt = [cfgc.nodes[m] for l, m in lapse[0].succ]
-        good = good and all(x.kind == "return" for x in nxt)
+        good = good and _is_remainder(lapse[0].ast.value, ca, at=lapse[0].ast)
+        # nothing after the lapse matches or writes the order: no call on the simulated order's own matching
+        # functions and no store through `self` on any path from the lapse to the exit
+        after = cfgc.reachable(lapse[0].id, include_src=False)
+        for m in after:
+            mn = cfgc.nodes[m]
+            for cc in calls_in(mn):
+                if call_name(cc).startswith("_process") or call_name(cc) in ("place", "cancel", "update"):
+                    good = False
+            if mn.kind == "stmt" and isinstance(mn.ast, (ast.Assign, ast.AugAssign, ast.AnnAssign)) and any(
+                    isinstance(t, ast.Attribute) for t, k in store_targets(mn.ast)):
+                good = False
     rep.check(good, "R3", key(ca, None, "lapse on a suspended material change empties the remainder and stops matching"), ca)
 
     # ------------------------------------------------------------------ R4 fills
@@ -310,7 +320,7 @@ def run(ctx, rep):
         rep.check(good, "R5", key(f, None, "complete exactly when the remainder is zero"), f, conds[0].exprs[0] if conds else None)
 
 
-def _is_remainder(a, func=None):
+def _is_remainder(a, func=None, at=None):
     """`self.size_remaining`, or a local whose only binding reads it (the buckets are not written in this function
     before the local's last use other than by the statement that consumes it - checked by the caller's rule R2)"""
     if utext(a) == "self.size_remaining":
@@ -323,6 +333,11 @@ def _is_remainder(a, func=None):
                       if any(isinstance(t, ast.Attribute) and t.attr in BUCKETS for t, k in store_targets(x))]
             uses = [n for n in ast.walk(func.node) if isinstance(n, ast.Name) and n.id == a.id and isinstance(n.ctx, ast.Load)]
             last_use = max((u.lineno, u.col_offset) for u in uses) if uses else (0, 0)
+            if at is not None:
+                # the use that matters is the consuming statement `at`: later reads of the local (a log line) see
+                # the value the remainder had when it was consumed, which is what was consumed
+                last_use = (at.lineno, at.col_offset)
+                writes = [w for w in writes if w is not at]
             return all((w.lineno, w.col_offset) >= (last_use[0], 0) or w.lineno < d[0].lineno for w in writes)
     return False
 
